@@ -16,7 +16,11 @@
     fault-free tree records nothing, and the exit status is 1 iff something was recorded;
   * `content_fault_local`: an entry whose content cannot be read differs from the readable entry only in the
     content-derived columns (line_count, sha*, is_shebang, has_xattrs, capabilities: all need the file opened), which are empty (`blind_*`).
-  Not theorems: breadth-first order, the ordered/aggregated result paths on faulty trees (decided by the
+  * breadth-first mode (the default): `bfs_root_exact_with_faults` — the queue loop reports `levelOrder` of
+    the faulty tree and records exactly `levelFaults`; `bfs_faults_same_as_dfs`, `bfs_rows_same_as_dfs` — the
+    failing directories recorded and the entries reported are those of the depth-first run (as multisets), so
+    `faults_hide_only_their_subtrees` carries over.
+  Not theorems: the ordered/aggregated result paths on faulty trees (decided by the
   correspondence, run as uid 65534), and everything about a closed standard output — that is the behaviour of
   the OS pipe and of Rust's `LineWriter`, which the model cannot exhibit; it is decided by fault injection
   (closing the pipe at every offset) with the oracle "no panic, status 0 or 1".
@@ -26,7 +30,7 @@ import Fsel.Model.Main
 import Fsel.Props.C01
 
 namespace Fsel.C17
-open Fsel WalkL
+open Fsel WalkL WalkB
 
 /-- what `check_file` and the archive loop can see of an event -/
 abbrev Key := Option (List ArcInfo) × Entry × Nat
@@ -262,5 +266,43 @@ example :
   · simp [faultsL, faultsN]
   · simp [eventsL, eventsN]
   · simp [eventsL, eventsN, healL, healN]
+
+/-! ### breadth-first mode on faulty trees -/
+
+/-- the root call and the queue loop on a tree with unlistable directories (= `C01.bfs_root_exact`, which
+    asks nothing about listability): rows from `levelOrder`, errors exactly `levelFaults` -/
+theorem bfs_root_exact_with_faults (p : Plan) (rp : RootParams) (hl : NoLimit p) (path canon : Str) (kids : List Node) (st : WSt)
+    (hq : st.walk.queue = []) (hg : goodL kids) (hnd : (inodesL kids).Nodup) (hfresh : ∀ i ∈ inodesL kids, i ∉ st.walk.visited) :
+    match foldReport p rp st.res (levelOrder rp [C01.rootItem path canon kids]) with
+    | .error a => C01.bfsRoot p rp path canon kids st = .error a
+    | .ok rs' => ∃ w', C01.bfsRoot p rp path canon kids st = .ok { res := rs', walk := w' } ∧
+        w'.errPaths = st.walk.errPaths ++ levelFaults rp [C01.rootItem path canon kids] ∧
+        w'.errCount = st.walk.errCount + (levelFaults rp [C01.rootItem path canon kids]).length := by
+  have h := C01.bfs_root_exact p rp hl path canon kids st hq hg hnd hfresh
+  cases hf : foldReport p rp st.res (levelOrder rp [C01.rootItem path canon kids]) with
+  | error a => rw [hf] at h; exact h
+  | ok rs' =>
+    rw [hf] at h
+    obtain ⟨w', h1, h2, h3, _⟩ := h
+    exact ⟨w', h1, h2, h3⟩
+
+/-- bfs records the same failing directories as dfs -/
+theorem bfs_faults_same_as_dfs (rp : RootParams) (path canon : Str) (kids : List Node)
+    (hroot : 1 < canon.length) (hbase : rp.base = calcDepth canon) (hg : goodL kids) :
+    (levelFaults rp [C01.rootItem path canon kids]).Perm (faultsL rp path canon 1 kids) := by
+  have hw : QWf rp [C01.rootItem path canon kids] := by
+    intro it hit; simp only [List.mem_singleton] at hit; subst hit
+    exact ⟨hg, hroot, by simp [C01.rootItem, hbase]⟩
+  have h := levelFaults_perm rp _ hw
+  have hd : itemDepth rp (C01.rootItem path canon kids) = 1 := by simp [itemDepth, C01.rootItem, hbase]
+  simp only [List.flatMap_cons, List.flatMap_nil, List.append_nil, subFaults] at h
+  rw [hd] at h
+  simpa [C01.rootItem] using h
+
+/-- bfs reports the same entries as dfs on a faulty tree (entries below a failing directory are hidden in both) -/
+theorem bfs_rows_same_as_dfs (rp : RootParams) (path canon : Str) (kids : List Node)
+    (hroot : 1 < canon.length) (hbase : rp.base = calcDepth canon) (hg : goodL kids) :
+    (levelOrder rp [C01.rootItem path canon kids]).Perm (eventsL rp path canon 1 kids) :=
+  C01.bfs_same_entries_as_dfs rp path canon kids hroot hbase hg
 
 end Fsel.C17
